@@ -168,6 +168,14 @@ private:
         for (const auto& user_property: user_properties)
             if (!is_valid_string_pair(user_property))
                 return client::error::malformed_packet;
+
+        const auto& server_reference = props[prop::server_reference];
+        if (
+            server_reference &&
+            validate_mqtt_utf8(*server_reference) != validation_result::valid
+        )
+            return client::error::malformed_packet;
+
         return error_code {};
     }
 
